@@ -54,18 +54,19 @@ Matches(e, st, o) ==
 
 \* [kind |-> "ok" | "dev" | "viol", dev |-> id, st |-> next abstract state]
 JudgeQuery(e) ==
-  IF ~KnownBehs(cfgv) \/ e.p \notin 1..Len(stv.cache) \/ e.res.class \notin {"ok", "err", "panic"}
+  IF ~KnownBehs(cfgv) \/ e.p \notin 1..Len(stv.cache) \/ e.res.class \notin {"ok", "err", "panic"} \/ e.t0 > e.t1
   THEN [kind |-> "viol", dev |-> "", st |-> stv]
   ELSE
-  LET any  == IF e.res.class = "ok" THEN {e.res.digest} ELSE {}
-      outs == {o \in Outcomes(cfgv, stv, e.p, any) : Matches(e, stv, o)}
+  LET sq   == At(stv, e.t0, e.t1)      \* the interval of this query on the driver's monotonic clock
+      any  == IF e.res.class = "ok" THEN {e.res.digest} ELSE {}
+      outs == {o \in Outcomes(cfgv, sq, e.p, any) : Matches(e, sq, o)}
       good == {o \in outs : o.dev = ""}
-  IN IF good # {} THEN [kind |-> "ok", dev |-> "", st |-> After(cfgv, stv, e.p, CHOOSE o \in good : TRUE)]
-     ELSE IF outs # {} THEN LET o == CHOOSE x \in outs : TRUE IN [kind |-> "dev", dev |-> o.dev, st |-> After(cfgv, stv, e.p, o)]
+  IN IF good # {} THEN [kind |-> "ok", dev |-> "", st |-> After(cfgv, sq, e.p, CHOOSE o \in good : TRUE)]
+     ELSE IF outs # {} THEN LET o == CHOOSE x \in outs : TRUE IN [kind |-> "dev", dev |-> o.dev, st |-> After(cfgv, sq, e.p, o)]
      ELSE \* resynchronise: an answer that came from the network is what the cache now holds
           [kind |-> "viol", dev |-> "",
            st |-> IF e.res.class = "ok" /\ e.contacted # <<>>
-                  THEN [stv EXCEPT !.cache[e.p] = Entry(e.res.digest, FreshSt(cfgv), stv.gen)] ELSE stv]
+                  THEN [stv EXCEPT !.cache[e.p] = Entry(e.res.digest, "have", stv.gen, e.t0, e.t1)] ELSE stv]
 
 JudgeDownload(e) ==
   LET k == e.k
@@ -98,8 +99,8 @@ Step ==
                   /\ stv' = j.st /\ cdn' = cdn
                   /\ viol' = IF j.kind = "viol" \/ ~seqok THEN Append(viol, l) ELSE viol
                   /\ devs' = IF j.kind = "dev" /\ seqok THEN Append(devs, <<l, j.dev>>) ELSE devs
-             [] e.op = "tick" /\ cfgv.fam \notin {"cdn", "none"} ->
-                  /\ stv' = TickSt(stv) /\ cdn' = cdn /\ devs' = devs
+             [] e.op \in {"tick", "wait"} /\ cfgv.fam \notin {"cdn", "none"} ->   \* time is read from the queries' own stamps
+                  /\ stv' = stv /\ cdn' = cdn /\ devs' = devs
                   /\ viol' = IF seqok THEN viol ELSE Append(viol, l)
              [] e.op = "reopen" /\ cfgv.fam \notin {"cdn", "none"} ->
                   /\ stv' = ReopenSt(cfgv, stv) /\ cdn' = cdn /\ devs' = devs
